@@ -138,7 +138,7 @@ def _pointwise(it, node, gen, seq, R, m, elt_val):
     spec = codec.infer_spec(elt_val) if elt_val is not None else None
     if spec is None:
         return
-    if spec == "str" or isinstance(spec, tuple):
+    if isinstance(spec, tuple):
         # kind known, contents not modelled
         R.spec = spec
         R.arrays = codec.fresh_arrays(it, spec, "comp")
@@ -158,5 +158,9 @@ def _pointwise(it, node, gen, seq, R, m, elt_val):
         R.spec = spec
         R.arrays = [z3.Lambda([j], t) for t in terms]
     except Unsupported:
+        if spec == "str":
+            R.spec = spec      # kind known, contents not modelled
+            R.arrays = codec.fresh_arrays(it, spec, "comp")
+            return
         R.spec = None
         R.arrays = None
